@@ -630,7 +630,42 @@ func overwriteInPlace() {
 
 var pkgQ Q
 
+type NamedInts []Int
+type NamedStrs []string
+type NamedBytes []uint8
+
+// conversions between slice types keep offset, length AND capacity
+func sliceConversions() {
+	base := []Int{1, 2, 3, 4, 5, 6}
+	lim := base[1:3:4]
+	ns := NamedInts(lim)
+	o("conv/named-cap", is(Int(len(ns)), Int(cap(ns))))
+	ns = append(ns, 30)
+	ns = append(ns, 40)
+	o("conv/named-append", is(base...)+"/"+is(ns...))
+	back := []Int(NamedInts(base[:2:2]))
+	back = append(back, 9)
+	o("conv/back", is(Int(cap(base[:2:2])), base[2])+"/"+is(back...))
+	sb := []string{"a", "b", "c", "d"}
+	ls := NamedStrs(sb[1:2:3])
+	ls = append(ls, "x", "y")
+	o("conv/named-strings", sb[2]+sb[3]+ls[1]+ls[2]+itoa(int64(len(ls))))
+	bb := []uint8{1, 2, 3, 4}
+	nb := NamedBytes(bb[:1:2])
+	nb = append(nb, 7, 8)
+	o("conv/named-bytes", is(Int(bb[1]), Int(bb[2]), Int(nb[1]), Int(nb[2])))
+	var nilS []Int
+	o("conv/nil", btoa(NamedInts(nilS) == nil)+btoa(NamedInts(base[:0]) == nil)+itoa(int64(cap(NamedInts(base[2:2:5])))))
+	shared := NamedInts(base[:3])
+	shared[0] = 100
+	o("conv/shares", is(base[0]))
+	f := func(s NamedInts) NamedInts { return append(s, 77) }
+	g := f(base[:1:1])
+	o("conv/implicit-arg", is(base[1])+"/"+is(g...))
+}
+
 func main() {
+	sliceConversions()
 	addrOfVar()
 	addrOfField()
 	addrOfElem()
